@@ -96,7 +96,8 @@ impl SetOperations {
 
         let start = std::time::Instant::now();
 
-        let result = if self.config.use_bit_mask_optimization && num_ways <= self.config.bit_mask_threshold {
+        // the bit mask variant keeps one bit per way in a u32, whatever the configured threshold says
+        let result = if self.config.use_bit_mask_optimization && num_ways <= self.config.bit_mask_threshold.min(32) {
             self.stats.used_bit_mask = true;
             self.intersection_bit_mask(iterators)?
         } else {
